@@ -98,6 +98,9 @@ pub fn extras() -> Vec<&'static str> {
         // two cogeneration units with different fuels, exporting
         "1,CONSUMO,CAL,ELECTRICIDAD,5\n2,PRODUCCION,EL_COGEN,20\n2,CONSUMO,COGEN,GASNATURAL,50\n3,PRODUCCION,EL_COGEN,10\n3,CONSUMO,COGEN,BIOMASA,30\n4,CONSUMO,ACS,BIOMASA,12",
         "1,CONSUMO,CAL,ELECTRICIDAD,5,40\n2,PRODUCCION,EL_COGEN,20,10\n2,CONSUMO,COGEN,GASNATURAL,50,25\n3,PRODUCCION,EL_COGEN,10,10\n3,CONSUMO,COGEN,GASNATURAL,30,30\n4,PRODUCCION,EL_INSITU,3,0\n5,CONSUMO,ACS,EAMBIENTE,6,6",
+        // one cogeneration input feeding two production components (most of the cogenerated electricity exported)
+        "CONSUMO,ILU,ELECTRICIDAD,10,10\nCONSUMO,COGEN,BIOMASA,100,100\nPRODUCCION,EL_COGEN,20,20\nPRODUCCION,EL_COGEN,20,20\nCONSUMO,CAL,GASNATURAL,200,200",
+        "CONSUMO,CAL,ELECTRICIDAD,10\nCONSUMO,CAL,EAMBIENTE,150\nCONSUMO,COGEN,GASNATURAL,100\nPRODUCCION,EL_COGEN,25\nPRODUCCION,EL_COGEN,15",
         // PV surplus consumed by non-EPB electricity and partly exported to the grid
         "1,CONSUMO,ILU,ELECTRICIDAD,10\n1,PRODUCCION,EL_INSITU,40\n1,CONSUMO,NEPB,ELECTRICIDAD,12\n2,CONSUMO,CAL,BIOMASA,30",
         "1,CONSUMO,ILU,ELECTRICIDAD,10,10\n1,PRODUCCION,EL_INSITU,15,40\n1,CONSUMO,NEPB,ELECTRICIDAD,20,5\n2,CONSUMO,CAL,RED1,30,30",
